@@ -6,12 +6,15 @@ import (
 	"encoding/json"
 	"fmt"
 	"os"
+	"sort"
 	"sync"
 	"testing"
 	"testing/synctest"
 	"time"
 
 	"go.uber.org/zap"
+	"go.uber.org/zap/zapcore"
+	"go.uber.org/zap/zaptest/observer"
 	"google.golang.org/grpc/codes"
 	"google.golang.org/grpc/status"
 
@@ -46,6 +49,7 @@ type rwCase struct {
 }
 
 type rwRec struct {
+	at   int64 // ns since the start of the case (fake clock)
 	call int
 	what string
 	n    int // events in the message
@@ -70,6 +74,7 @@ type rwObs struct {
 	Init     bool
 	ErrText  string
 	Bookmark []byte
+	At       int64
 }
 
 func obsOf(e state.Event) rwObs {
@@ -88,12 +93,14 @@ func obsOf(e state.Event) rwObs {
 	return o
 }
 
-func runRemoteWatch(t *testing.T, c rwCase) (coq string, problems []string, flags map[string]bool) {
+func runRemoteWatch(t *testing.T, c rwCase) (coq, budgetCoq string, problems []string, flags map[string]bool) {
 	flags = map[string]bool{}
 
 	synctest.Test(t, func(t *testing.T) {
 		ctx, cancel := context.WithCancel(context.Background())
 		defer cancel()
+
+		t0 := time.Now()
 
 		mk := func() state.CoreState {
 			return inmem.NewStateWithOptions(
@@ -112,7 +119,7 @@ func runRemoteWatch(t *testing.T, c rwCase) (coq string, problems []string, flag
 		mc := &memClient{srv: server.NewState(state.WrapCore(backing))}
 		mc.watchFaults = &watchFaultPlan{plan: c.Plan}
 		mc.watchRec = func(call int, what string, msg *v1alpha1.WatchResponse, err error) {
-			r := rwRec{call: call, what: what, code: status.Code(err)}
+			r := rwRec{at: int64(time.Since(t0)), call: call, what: what, code: status.Code(err)}
 			if msg != nil {
 				r.n = len(msg.Event)
 				for _, e := range msg.Event {
@@ -125,7 +132,8 @@ func runRemoteWatch(t *testing.T, c rwCase) (coq string, problems []string, flag
 			recMu.Unlock()
 		}
 
-		opts := []client.AdapterOption{client.WithRetryLogger(zap.NewNop())}
+		retryCore, retryLog := observer.New(zapcore.WarnLevel)
+		opts := []client.AdapterOption{client.WithRetryLogger(zap.New(retryCore))}
 		if c.NoRetry {
 			opts = append(opts, client.WithDisableWatchRetry())
 		}
@@ -142,10 +150,16 @@ func runRemoteWatch(t *testing.T, c rwCase) (coq string, problems []string, flag
 		oneMD := resource.NewMetadata("n1", "T", "a", resource.VersionUndefined)
 
 		var (
-			obsMu            sync.Mutex
-			remoteEv, refEv  []rwObs
-			remoteDone       bool
-			collect          = func(dst *[]rwObs, e state.Event) { obsMu.Lock(); *dst = append(*dst, obsOf(e)); obsMu.Unlock() }
+			obsMu           sync.Mutex
+			remoteEv, refEv []rwObs
+			remoteDone      bool
+			collect         = func(dst *[]rwObs, e state.Event) {
+				o := obsOf(e)
+				o.At = int64(time.Since(t0))
+				obsMu.Lock()
+				*dst = append(*dst, o)
+				obsMu.Unlock()
+			}
 			refCh, remCh     = make(chan state.Event), make(chan state.Event)
 			refAgg, remAgg   = make(chan []state.Event), make(chan []state.Event)
 			kopts            []state.WatchKindOption
@@ -512,6 +526,30 @@ func runRemoteWatch(t *testing.T, c rwCase) (coq string, problems []string, flag
 		mi := 0
 		first := map[int]bool{} // streams whose ready message was delivered
 
+		// the retry budget's view of the same run (RetryBudget.v): breaks of established streams, every decision of the
+		// retry loop with its delay (from the adapter's retry log), the give-up; in time order
+		type budgetEv struct {
+			at   int64
+			prio int
+			coq  string
+		}
+
+		var budget []budgetEv
+
+		for _, e := range retryLog.All() {
+			if e.Message != "watch retrying" {
+				continue
+			}
+
+			d, _ := e.ContextMap()["backoff"].(time.Duration)
+			at := int64(e.Time.Sub(t0))
+			budget = append(budget, budgetEv{at, 1, fmt.Sprintf("BRetry %d%%Z %d%%Z", at, int64(d))})
+
+			if int64(d) > int64(time.Second) {
+				flags["backoff_grew"] = true
+			}
+		}
+
 		flush := func(upto int) {
 			for mi < len(ms) && ms[mi] <= upto {
 				choices = append(choices, "SAppend")
@@ -562,6 +600,8 @@ func runRemoteWatch(t *testing.T, c rwCase) (coq string, problems []string, flag
 				default:
 					choices = append(choices, "SBreak")
 					flags["stream_broken"] = true
+
+					budget = append(budget, budgetEv{r.at, 0, fmt.Sprintf("BBreak %d%%Z", r.at)})
 				}
 			}
 		}
@@ -576,6 +616,8 @@ func runRemoteWatch(t *testing.T, c rwCase) (coq string, problems []string, flag
 				choices = append(choices, "SGiveUp")
 				gaveUp = true
 				flags["gave_up"] = true
+
+				budget = append(budget, budgetEv{rem[len(rem)-1].At, 2, fmt.Sprintf("BGiveUp %d%%Z", rem[len(rem)-1].At)})
 			}
 		}
 
@@ -664,6 +706,23 @@ func runRemoteWatch(t *testing.T, c rwCase) (coq string, problems []string, flag
 			_ = k
 		}
 
+		if !c.NoRetry {
+			sort.SliceStable(budget, func(i, j int) bool {
+				if budget[i].at != budget[j].at {
+					return budget[i].at < budget[j].at
+				}
+
+				return budget[i].prio < budget[j].prio
+			})
+
+			var bs []string
+			for _, b := range budget {
+				bs = append(bs, b.coq)
+			}
+
+			budgetCoq = coqList(bs)
+		}
+
 		coq = fmt.Sprintf("(%s, %d, %d, %s, %s, %d, %s, %s, %s, %s)",
 			coqList(mb), c.Cap, c.Gap, coqBool(single), coqList(ib), p0, coqBool(!c.NoRetry),
 			coqList(choices), coqList(ob), fin)
@@ -672,7 +731,7 @@ func runRemoteWatch(t *testing.T, c rwCase) (coq string, problems []string, flag
 		synctest.Wait()
 	})
 
-	return coq, problems, flags
+	return coq, budgetCoq, problems, flags
 }
 
 func containsStr(s, sub string) bool {
@@ -751,6 +810,21 @@ func genRemoteWatch(r *rng) rwCase {
 		}
 	}
 
+	if r.chance(1, 6) {
+		// transport cuts that do not coincide with a message: a stream (the first, or a re-established one that may
+		// still be waiting for its first event) dies after a while, possibly long after anything else happened
+		for range 1 + r.intn(2) {
+			i := r.intn(len(c.Plan))
+			if !c.Plan[i].FailDial && !c.Plan[i].Foreign && c.Plan[i].BreakAfter != 0 {
+				c.Plan[i].CutAfter = int64(pick(r, []time.Duration{2 * time.Second, time.Minute, 16 * time.Minute, 30 * time.Minute}))
+			}
+		}
+
+		for range 1 + r.intn(3) {
+			c.Steps = append(c.Steps, rwStep{Op: "sleep", D: int64(pick(r, []time.Duration{time.Minute, 17 * time.Minute, 31 * time.Minute}))}, rwStep{Op: "update", ID: "a"})
+		}
+	}
+
 	return c
 }
 
@@ -810,6 +884,14 @@ func TestC13(t *testing.T) {
 					{Op: "create", ID: "a", Label: "v"}, {Op: "update", ID: "a"}, {Op: "sleep", D: int64(20 * time.Minute)}, {Op: "update", ID: "a"}, {Op: "update", ID: "a"},
 					{Op: "sleep", D: int64(time.Minute)}, {Op: "update", ID: "a"}, {Op: "sleep", D: int64(40 * time.Minute)}, {Op: "update", ID: "a"}, {Op: "update", ID: "a"}, {Op: "update", ID: "a"},
 				}})
+			// ... and a re-established stream stays quiet for a long time before it fails (the adapter is still inside its
+			// retry loop then, waiting for the first message on the new stream)
+			cases = append(cases, rwCase{Kind: k, Cap: 64, Gap: 1, Pre: 1, FinalNap: int64(time.Hour),
+				Plan: []watchFault{{BreakAfter: -1, CutAfter: int64(30 * time.Minute)}, {BreakAfter: -1, CutAfter: int64(20 * time.Minute)}, {BreakAfter: -1}},
+				Steps: []rwStep{
+					{Op: "create", ID: "a", Label: "v"}, {Op: "update", ID: "a"}, {Op: "sleep", D: int64(31 * time.Minute)}, {Op: "sleep", D: int64(25 * time.Minute)},
+					{Op: "update", ID: "a"}, {Op: "sleep", D: int64(time.Minute)}, {Op: "update", ID: "a"},
+				}})
 		}
 
 		for range tier(600, 12000) {
@@ -821,10 +903,14 @@ func TestC13(t *testing.T) {
 	// the same traces on the composed machine (the ring itself on the server side), in lockstep with RemoteWatch.step
 	f2 := newCoqFile("C13_ring_cases", []string{"RemoteWatch", "RemoteWatchCheck", "RemoteRingCheck"}, "rwcase", "rr_mismatches")
 
-	var jl []any
+	// the retry log of the same runs on the backoff's clock: every retry/give-up decision must be one NextBackOff can
+	// make when the budget starts at the last break of an established stream
+	f3 := newCoqFile("C13_budget_cases", []string{"RetryBudget"}, "list bev", "budget_mismatches")
+
+	var jl, jl3 []any
 
 	for i, c := range cases {
-		coq, problems, flags := runRemoteWatch(t, c)
+		coq, budgetCoq, problems, flags := runRemoteWatch(t, c)
 
 		key, _ := json.Marshal(c)
 		rep.count(string(key), len(flags) >= 2)
@@ -847,10 +933,16 @@ func TestC13(t *testing.T) {
 			f2.add(coq)
 			jl = append(jl, map[string]any{"case": c})
 		}
+
+		if budgetCoq != "" {
+			f3.add(budgetCoq)
+			jl3 = append(jl3, map[string]any{"case": c})
+		}
 	}
 
 	f.finishSharded(t, dir, rep, jl, 400)
 	f2.finishSharded(t, dir, rep, jl, 400)
+	f3.finishSharded(t, dir, rep, jl3, 400)
 	rep.Assumptions = append(rep.Assumptions, "the composed replay (C13_ring_cases) applies to unselected kind watches without a server-reported overrun; its server-side watcher fetches after every commit (fetch times are not observable)", "the in-memory transport delivers messages in order and fails only between messages; buffer capacity is fixed (initial = maximum) so the window test is a function of the log length")
 	rep.write(t, dir)
 }
